@@ -471,6 +471,58 @@ fn save_with_stack_in_screen(ctx: &Ctx) {
     });
 }
 
+/// A tape block shorter than the request, fast-loaded over a picture that is already on the screen:
+/// the loader leaves early (tape error), and what it did store must be on the next frames as well.
+fn fastload_short_block(ctx: &Ctx) {
+    let old = latin(60);
+    let new = latin(190);
+    for is128 in [false, true] {
+        for len in [1usize, 96, 300, 6143, 6911] {
+            let cfg = if is128 { Cfg::K128Normal } else { Cfg::K48 };
+            let mut e = match write_content(cfg, Writer::Poke, &old) {
+                Ok(e) => e,
+                Err(_) => continue,
+            };
+            frames(&mut e, 2);
+            if is128 {
+                // ROM 1 for the trap
+                rig::poke(&mut e, 0x8800, &[0x01, 0xFD, 0x7F, 0x3E, 0x10, 0xED, 0x79, 0xC3, IDLE as u8, (IDLE >> 8) as u8]);
+                e.verif_cpu().regs.set_pc(0x8800);
+                frames(&mut e, 1);
+            }
+            let blk = crate::tapemodel::std_block(0xFF, &new[..len]);
+            if e.load_tape(Tape::Tap(VAsset::new(crate::tapemodel::tap_image(&[blk])))).is_err() {
+                continue;
+            }
+            let mut v = RegsView::default();
+            v.pc = 0x0556;
+            v.sp = 0xBF00;
+            v.af = 0xFF01;
+            v.ix = 0x4000;
+            v.de = 6912;
+            v.im = 1;
+            rig::set_regs(e.verif_cpu(), &v);
+            rig::poke(&mut e, 0xBF00, &[IDLE as u8, (IDLE >> 8) as u8]);
+            frames(&mut e, 4);
+            ctx.add_eval(1);
+            let mem = displayed_memory(&e, is128);
+            let case = json!({"kind":"fastload-short","m128":is128,"len":len});
+            if mem[..len] != new[..len] {
+                ctx.violation("C08:fastload-short:harness", &format!("the short block of {} bytes was not loaded to the screen", len), case);
+                continue;
+            }
+            if let Err((x, y, g, w)) = compare_frame(&e, &mem) {
+                ctx.violation(
+                    &format!("C08:fastload-short-block:{}", if is128 { "128k" } else { "48k" }),
+                    &format!("{} machine: a tape block of {} data bytes fast-loaded to 4000h for a request of 6912 bytes (the loader leaves early): four frames later pixel ({},{}) shows {:02x}, the standard decode of the display memory gives {:02x}", if is128 { "128K" } else { "48K" }, len, x, y, g, w),
+                    case,
+                );
+            }
+            ctx.outcome(0xF5B0 ^ (len as u64) << 1 ^ is128 as u64);
+        }
+    }
+}
+
 /// Beam clause without ever placing the clock: the CPU idles (JR $) from the frame start until
 /// the chosen moment, so the renderer's own scheduling of its work is part of what is tested.
 fn beam_clause_free_running(ctx: &Ctx, is128: bool, lines: &[usize]) {
@@ -713,6 +765,7 @@ pub fn run(tier: Tier, seed: u64, replay: Option<String>) -> i32 {
     bank_switch(&ctx);
     snapshot_then_flip(&ctx);
     save_with_stack_in_screen(&ctx);
+    fastload_short_block(&ctx);
     let lines: Vec<usize> = if quick { vec![0, 1, 7, 8, 63, 64, 65, 100, 127, 128, 190, 191] } else { (0..192).collect() };
     beam_clause(&ctx, false, &lines);
     beam_clause(&ctx, true, &lines);
@@ -723,7 +776,7 @@ pub fn run(tier: Tier, seed: u64, replay: Option<String>) -> i32 {
     ctx.note("contents", json!(contents.len()));
     ctx.note("not_judged", json!("phase of the first FLASH swap; stores completing within +-16 T of the ULA fetch of the byte"));
     ctx.finish(
-        "contents: Latin frames (bitmap[a]=(17a+j) mod 256, attr[a]=(29a+3j) mod 256: every screen address meets every byte value over j) and 26 address-line frames; writers: LDIR, explicit CPU store loop, execute_poke, tape fast load through the ROM trap, SNA, SZX stored, SZX zlib, SCR (files through assets returning short reads of rotating sizes {whole,1,2,3,7,127,128,129}); configurations: 48K, 128K normal screen, 128K shadow screen written through C000, bank 5 written through C000; after two unchanged frames all 49152 pixels (colour and brightness) are compared with the standard decode of the displayed bank; FLASH run lengths over 48 frames; paging bit 3 switched between frames, also after the latch is locked (the displayed bank is computed from the reference latch, not from the implementation); snapshot with both screens loaded then flipped by the program; SNA/SZX save with SP inside the display memory; beam clause on picture lines x columns {0,15,31} x store times -90..+70 T around the ULA fetch. distinct_nontrivial = (configuration, writer, content) cases",
+        "contents: Latin frames (bitmap[a]=(17a+j) mod 256, attr[a]=(29a+3j) mod 256: every screen address meets every byte value over j) and 26 address-line frames; writers: LDIR, explicit CPU store loop, execute_poke, tape fast load through the ROM trap, SNA, SZX stored, SZX zlib, SCR (files through assets returning short reads of rotating sizes {whole,1,2,3,7,127,128,129}); configurations: 48K, 128K normal screen, 128K shadow screen written through C000, bank 5 written through C000; after two unchanged frames all 49152 pixels (colour and brightness) are compared with the standard decode of the displayed bank; FLASH run lengths over 48 frames; paging bit 3 switched between frames, also after the latch is locked (the displayed bank is computed from the reference latch, not from the implementation); snapshot with both screens loaded then flipped by the program; SNA/SZX save with SP inside the display memory; tape blocks shorter than the request fast-loaded over a picture already shown; beam clause on picture lines x columns {0,15,31} x store times -90..+70 T around the ULA fetch. distinct_nontrivial = (configuration, writer, content) cases",
         false,
         &["quick tier rotates contents over the non-LDIR writers (each writer sees a quarter of the contents)", "beam clause places the frame clock through the hook"],
     )
